@@ -7,6 +7,9 @@ From Coq Require Import Reals Bool List.
 From SpdVerif Require Import Base.Rx Model.SpectrumSetup Gen.Spectrum Gen.Efficiencies Model.Spectrum
   Spec.Normalization
   Proofs.C07_scaling Proofs.C07_envelope Proofs.C07_support Proofs.C07_defined Proofs.C07_spec Proofs.C07_examples.
+From SpdVerif Require Import Spec.CrystalTypes Gen.Crystals Proofs.Sellmeier Model.Optics Model.Fresnel Proofs.Compose_index Proofs.C07_builtin.
+From Coquelicot Require Import Coquelicot.
+From SpdVerif Require Import Model.PMParams Gen.PMIntegrand Proofs.C07_counts.
 Local Open Scope R_scope.
 
 (* ---------- 1. linearity in power, quadratic in deff; for ALL inputs (no side condition) *)
@@ -37,6 +40,29 @@ Theorem C07_counts_linear : forall a b corr pts dw2 s sw,
   counts_singles_signal corr pts dw2 (scale_setup a b s) = a * b ^ 2 * counts_singles_signal corr pts dw2 s /\
   counts_singles_idler corr pts dw2 (scale_setup a b sw) = a * b ^ 2 * counts_singles_idler corr pts dw2 sw.
 Proof. exact (fun a b corr pts dw2 s sw => conj (counts_coincidences_linear a b corr pts dw2 s) (conj (counts_singles_signal_linear a b corr pts dw2 s) (counts_singles_idler_linear a b corr pts dw2 sw))). Qed.
+
+(* the rates of the model are the GENERATED rendering of src/spdc/counts.rs (Gen/PMIntegrand.v, emitted only while the Rust
+   bodies keep the shape `dw2 = dws * dwi; correction * Σ spectrum * dw2`), with the generated correction factor and the cell
+   area from the two generated division widths (Gen/Grid.v) *)
+Theorem C07_counts_match_generated : forall (Q : (R -> C) -> R -> R -> C) (jsis : pm_params -> R) (S Ssw : R -> R -> pm_params) (p0 : pm_params)
+    pts xs xe nx ys ye ny s sw,
+  let dw2 := cell_area xs xe nx ys ye ny in
+  (forall ws wi, pm_jsi Q (S ws wi) = spectrum_jsi ws wi s) ->
+  (forall ws wi, jsis (S ws wi) = spectrum_jsi_singles ws wi s) ->
+  (forall ws wi, jsis (Ssw wi ws) = spectrum_jsi_singles wi ws sw) ->
+  dw2 = (xe - xs) / INR (nx - 1) * ((ye - ys) / INR (ny - 1)) /\
+  pm_counts_coincidences Q S p0 pts dw2 = counts_coincidences (pm_counts_correction p0) pts dw2 s /\
+  pm_counts_singles_signal jsis S p0 pts dw2 = counts_singles_signal (pm_counts_correction p0) pts dw2 s /\
+  pm_counts_singles_idler jsis Ssw p0 pts dw2 = counts_singles_idler (pm_counts_correction p0) pts dw2 sw.
+Proof.
+  exact (fun Q jsis S Ssw p0 pts xs xe nx ys ye ny s sw H1 H2 H3 =>
+           conj (cell_area_eq xs xe nx ys ye ny) (counts_match_generated Q jsis S Ssw p0 pts xs xe nx ys ye ny s sw H1 H2 H3)).
+Qed.
+
+Theorem C07_cell_area_matters : forall corr f pts dws dwi,
+  corr * grid_sum f pts 1 <> 0 -> dws <> 0 -> dws <> dwi ->
+  corr * grid_sum f pts (dws * dws) <> corr * grid_sum f pts (dws * dwi).
+Proof. exact wrong_cell_area_differs. Qed.
 
 (* ratios are independent of power and deff *)
 Theorem C07_efficiencies_invariant : forall a b corr pts dw2 s sw,
@@ -159,9 +185,27 @@ Theorem C07_spectrum_defined_partial : forall ws wi s,
   pump_spectral_amplitude_defined (ws + wi) s.
 Proof. exact (fun ws wi s H Hn => match spectrum_defined ws wi s H Hn with conj A (conj B C) => conj A (conj B (conj C (envelope_defined (ws + wi) s H))) end). Qed.
 
+(* the FULL definedness clause for the built-in crystals: the index oracles are the code's own computation
+   (crystal_index = generated index_along over the generated crystal tables, Proofs/Compose_index.v), so no index hypothesis
+   is left.  `physical s` lists setup parameters only (positive pump frequency, 0 < fwhm < 2 lambda_p, positive length / power /
+   waists, deff <> 0, external angles inside (-pi/2, pi/2)).  What remains unproved for the property's last clause is only
+   the finiteness of the two fibre-coupling integrals themselves. *)
+Theorem C07_defined_builtin : forall c T theta phi ds di ps pi_ s ws wi,
+  let s' := with_crystal_indices c T theta phi ds di ps pi_ s in
+  physical s -> temp_ok T -> unit_vec ds -> unit_vec di ->
+  in_window c (lambda_um ws) -> in_window c (lambda_um wi) ->
+  indices_pos s' ws wi /\
+  pump_spectral_amplitude_defined (ws + wi) s' /\
+  jsi_normalization_defined ws wi s' /\ 0 < jsi_normalization ws wi s' /\
+  jsi_singles_normalization_defined ws wi s' /\ 0 < jsi_singles_normalization ws wi s' /\
+  spectrum_jsa_defined ws wi s' /\ spectrum_jsi_defined ws wi s' /\ spectrum_jsi_singles_defined ws wi s'.
+Proof. exact defined_builtin. Qed.
+
 (* ---------- non-vacuity: a concrete physical setup (775 nm pump, 0.5 nm FWHM, 1 mW, 1 pm/V) *)
 Example C07_nonvacuous_physical : physical example_setup /\ indices_pos example_setup 1.2e15 1.2e15.
 Proof. exact example_physical. Qed.
+Example C07_nonvacuous_builtin : in_window KTP (lambda_um 1.2e15) /\ temp_ok 20 /\ unit_vec (0, 0, 1).
+Proof. exact example_builtin. Qed.
 Example C07_nonvacuous_on_support : ~ off_support 1.2e15 1.2e15 example_setup.
 Proof. exact example_on_support. Qed.
 Example C07_nonvacuous_off_support : off_support 2.5e15 1e14 example_setup /\ off_support 1.3e15 1.2e15 example_setup.
@@ -172,6 +216,8 @@ Print Assumptions C07_raw_independent.
 Print Assumptions C07_spectra_linear.
 Print Assumptions C07_amplitude_scales.
 Print Assumptions C07_counts_linear.
+Print Assumptions C07_counts_match_generated.
+Print Assumptions C07_cell_area_matters.
 Print Assumptions C07_efficiencies_invariant.
 Print Assumptions C07_normalized_invariant.
 Print Assumptions C07_schmidt_invariant.
@@ -191,3 +237,4 @@ Print Assumptions C07_support_normalized.
 Print Assumptions C07_support_tight.
 Print Assumptions C07_defined_partial.
 Print Assumptions C07_spectrum_defined_partial.
+Print Assumptions C07_defined_builtin.
